@@ -55,6 +55,17 @@ fn hostile_haystacks(p: &Program, rng: &mut Rng, n_random: usize) -> Vec<String>
         }
         v.push(s);
     }
+    // far haystacks (not under the slow tools): a short hostile haystack behind 15..4097 filler
+    // characters, one of them multi-byte, so that scanning and loops run across word boundaries
+    if n_random >= 6 {
+        for filler in ['#', '\u{3042}'] {
+            let n = if rng.chance(1, 8) { *rng.pick(&[1023usize, 4095, 4097]) } else { *rng.pick(&[15usize, 16, 17, 31, 32, 33, 63, 64, 65, 255, 256, 257]) };
+            let base = v[rng.below(v.len())].clone();
+            let mut s: String = std::iter::repeat(filler).take(n).collect();
+            s.push_str(&base);
+            v.push(s);
+        }
+    }
     v
 }
 
@@ -139,7 +150,7 @@ pub fn run(cfg: &Cfg, rep: &mut Report) {
             let mut starts = gen::boundaries(hay);
             starts.push(hay.len() + 1);
             starts.push(usize::MAX);
-            for start in starts {
+            for start in thin_starts(starts) {
                 for api in [Api::Utf8, Api::Pike, Api::Ascii, Api::PikeAscii] {
                     if matches!(api, Api::Ascii | Api::PikeAscii) && !hay.is_ascii() {
                         continue;
